@@ -689,6 +689,9 @@ def stream_mixture_exploration(X):
         X.drop(d)
         if isinstance(stats, dict):
             for s_, n in stats.items(): c.count('mixture-over-old-format:' + s_, n)
+            if stats.get('WRONG-VALUE'):
+                c.failing_input('function-not-transparent:mixture-loads-wrong-value', 'a killed rewrite of an old-format entry left a file that loads silently as a wrong value (%s)' % kind,
+                                dict(stream='mixture', payload=kind, pseed=seed, stats=stats))
         c.obligation('explore:mixture-over-old-format:' + kind, True, 'exploration', stats)
 
 
